@@ -138,4 +138,36 @@ def progValue (cells : List St) (t : Nat) (p : Prog) : Option Int :=
     | .cons _ k => some (k * base + k * (k + 1))
   else none
 
+
+/-! ### runs in which some threads failed
+
+The schedule of a real run is not controllable, and in the scenario classes with a listed race
+(std imports, channel traffic) a run may fail in every repetition.  Such a run is still compared
+with the model on what the failure leaves determined: the threads that did NOT fail must have the
+model's values, and every module one of them requested must have been evaluated as often as the
+model says.  A module requested only by failed threads may or may not have been reached before
+the failure: its count is not determined (`?`).  With no failed thread nothing is masked
+(`undetermined_nil`). -/
+
+/-- the modules reachable from `ms` through the imports of the module sources -/
+def reach (mods : Mods) : Nat → List Nat → List Nat
+  | 0, ms => ms
+  | fuel + 1, ms =>
+    reach mods fuel (ms ++ ms.flatMap (fun m => match mods[m]? with
+      | some (_, deps) => deps.filter (fun d => !ms.contains d)
+      | none => [])).eraseDups
+
+/-- the modules the program of a thread requests (its imports, transitively) -/
+def requests (mods : Mods) (p : Prog) : List Nat := reach mods mods.length p.imports
+
+/-- module `m` was requested by some failed thread and by no thread that ran to its end -/
+def undetermined (mods : Mods) (progs : List Prog) (failed : List Nat) (m : Nat) : Bool :=
+  let tp := (List.range progs.length).zip progs
+  tp.any (fun (t, p) => failed.contains t && (requests mods p).contains m) &&
+    !(tp.any (fun (t, p) => !failed.contains t && (requests mods p).contains m))
+
+theorem undetermined_nil (mods : Mods) (progs : List Prog) (m : Nat) :
+    undetermined mods progs [] m = false := by
+  simp [undetermined]
+
 end GluonModel.ParOnce
